@@ -300,7 +300,13 @@ fn record_hist_typed<H: HistT>(out: &mut impl Write, rng: &mut Xoshiro256PlusPlu
             if w[1 - s].is_none() {
                 continue;
             }
-            w[s] = w[1 - s].clone();
+            // Clone::clone / Clone::clone_from alternately
+            let src = w[1 - s].clone();
+            if rng.random_range(0..2) == 0 {
+                w[s].clone_from(&src);
+            } else {
+                w[s] = src;
+            }
             writeln!(out, "{}", json!({"op": "clone", "dst": s + 1, "src": 2 - s, "bins": w[s].as_ref().unwrap().bins()})).unwrap();
         }
     }
@@ -452,7 +458,12 @@ fn record_len_typed<T: LenT>(out: &mut impl Write, rng: &mut Xoshiro256PlusPlus,
                 events -= 1;
                 continue;
             }
-            objs[i] = objs[j].clone();
+            let src = objs[j].clone();
+            if events % 2 == 1 {
+                objs[i].clone_from(&src);
+            } else {
+                objs[i] = src;
+            }
             let (l, _) = objs[i].as_ref().unwrap().len_empty();
             writeln!(out, "{}", json!({"op": "clone", "dst": i, "src": j, "len": l as u64})).unwrap();
         }
@@ -607,7 +618,12 @@ pub fn record_minmax(path: &str, seed: u64, n: usize, with_serde: bool, rep: &mu
                 } else if c < 92 {
                     let j = rng.random_range(0..k);
                     if j != i && objs[j].is_some() {
-                        objs[i] = objs[j].clone();
+                        let src = objs[j].clone();
+                        if c % 2 == 1 {
+                            objs[i].clone_from(&src);
+                        } else {
+                            objs[i] = src;
+                        }
                         let o = objs[i].as_ref().unwrap();
                         line = Some(json!({"op": "clone", "dst": i, "src": j, "mn": mm_log(o.0.min()), "mx": mm_log(o.1.max())}));
                     }
